@@ -10,6 +10,7 @@ def gen_program(rng, arch, nstmt, vocab, incbin):
     lines, out, labels = [], bytearray(), {}
     here, code, nlab = 0, True, 0
     peak = 0
+    late = []
     for _ in range(nstmt):
         peak = max(peak, here)
         r = rng.random()
@@ -43,8 +44,13 @@ def gen_program(rng, arch, nstmt, vocab, incbin):
             if code:
                 items, bs = [], bytearray()
                 for _ in range(rng.randrange(1, 4)):
-                    if rng.random() < 0.35:
+                    k = rng.random()
+                    if k < 0.35:
                         items.append("@here"); v = here + len(bs)
+                    elif k < 0.5:
+                        v = rng.randrange(65536)
+                        wname = "word%d_%d" % (len(lines), len(items))
+                        late.append("@defn %s, %d" % (wname, v)); items.append(wname)
                     else:
                         v = rng.randrange(65536); items.append(str(v))
                     bs += v.to_bytes(2, "little")
@@ -55,7 +61,14 @@ def gen_program(rng, arch, nstmt, vocab, incbin):
             n = rng.choice([0, 1, 2, 3, 7, 16, 100])
             if code and rng.random() < 0.5:
                 f = rng.randrange(256)
-                lines.append("@ds %d, %d" % (n, f)); out += bytes([f]) * n
+                if rng.random() < 0.4:
+                    # the fill value is only defined at the end of the file (patched at link time)
+                    fname = "fill%d" % len(lines)
+                    late.append("@defn %s, %d" % (fname, f))
+                    lines.append("@ds %d, %s" % (n, fname))
+                else:
+                    lines.append("@ds %d, %d" % (n, f))
+                out += bytes([f]) * n
             else:
                 lines.append("@ds %d" % n)
                 if code:
@@ -78,6 +91,7 @@ def gen_program(rng, arch, nstmt, vocab, incbin):
             lines.append("; just a comment")
     nlab += 1
     lines.append("endlab:"); labels["endlab"] = here
+    lines += late
     gen_program.peak = peak
     return "\n".join(lines) + "\n", bytes(out), labels
 
